@@ -54,7 +54,7 @@ verdict), "G" = generator of an input / fault space, "A" = acceptor used for tra
 | `depack` | `Depack` (P: must / may receiver over packetisation and fault plans) | plan enumeration | `harness/c06` independent packetiser | C06 |
 | `tsout` | `TsCases` (G), `TsOut` (A) | case enumeration + trace validation | `harness/c09` independent demultiplexer | C09 |
 | `flvout` | `FlvCases` (G), `FlvOut` (A) | same | `harness/c08` independent FLV parser | C08 |
-| `hls` | `Hls` (I: segmenter, window, pooled / file store, readers; deviations FixSegPool / FixM3u8Pool / FixAudioCut), `MCHls`, `HlsTrace` (P/A) | model check with 4 negative controls, class cover + walks, trace validation | `harness/c10` (package level and live HTTP), `harness/tsdemux` | C10 |
+| `hls` | `Hls` (I: segmenter, window, pooled / file store, readers; deviations FixSegPool / FixM3u8Pool / FixAudioCut), `MCHls`, `HlsTrace` (P/A) | model check with 4 negative controls, class cover + walks, trace validation; gate at `hls.seg.found` (rollover attempted inside `Open`'s critical section, open-race leg) | `harness/c10` (package level and live HTTP), `harness/tsdemux` | C10 |
 | `rtspwire` | `WireReader` (I/P: the connection reader under arbitrary chunking; negative controls single-Read body / no line limit), `WireCases` (G), `WireFaults` (G), `RtspWire` (A) | model check + enumeration + trace validation | `harness/c14` on the real dispatcher (`VerifReceive`) | C14 |
 | `params` | `ParamCases` (G: syntax-branch space), `ParamProp` (P/A: the standards' derivations) | enumeration + trace validation | `harness/c15` independent bit-exact encoders | C15 |
 | `contain` | `Contain` (I/P: stage-wise containment, Recover = item / once / none), `FaultCases`, `HostileCases` (G), `ContainTrace` (A) | model check with 2 negative controls, enumeration, trace validation | `harness/c07` injection into live streams / sessions | C07 |
